@@ -161,6 +161,8 @@ def run(chk):
             if isinstance(e, ast.Call) and len(e.args) >= 2 and U(e.args[1]) == "-1":
                 ok_norm = True
     chk.require("C14.R1", f"{ci.mod.rel}:{fwd.lineno}", ok_norm, "SymmetricQuantizer.forward: axis == ndim-1 is normalised to -1 and recorded as such", "SymmetricQuantizer.forward", "last-axis normalisation", "axis given as ndim-1: rejected or recorded with a different convention")
+    from . import c02
+    c02.requested_config(chk, "C14.R1")
     group_size_rule(chk)
     qtype_by_name(chk)
     chk.assume("parameter positions of the public quantization entry points are part of the API (names are read from the signatures)")
